@@ -526,6 +526,28 @@ pub fn type_pair_family(k: usize, tier: Tier) -> Vec<String> {
             out.push(format!("(pp : int -> type) => (uu : pp (-{a})) => (kk : pp {r} -> int) => kk uu"));
         }
     }
+    // Dependent function types with two type parameters, one written out and one obtained by applying a
+    // type-level function (so that the comparison cannot be settled syntactically and goes through
+    // normalisation), under three spellings of the binder names: the same names at the same positions,
+    // the two names exchanged, and the function's own binder named like the *outer* binder of the other
+    // type. After the reduction two different binders of the same name are in scope at once; variables
+    // are compared by index, never by name. Also as the annotation of a definition that is then used.
+    let results = |x: &str, y: &str| -> Vec<String> { vec![x.to_owned(), y.to_owned(), format!("{x} -> {y}"), format!("{y} -> {x}")] };
+    for (n1, n2) in [("aa", "bb"), ("bb", "aa"), ("cc", "aa")] {
+        for (i1, r1) in results("aa", "bb").into_iter().enumerate() {
+            for (i2, r2) in results("tt", n2).into_iter().enumerate() {
+                let t1 = format!("(aa : type) -> (bb : type) -> {r1}");
+                let t2 = format!("({n1} : type) -> ((tt : type) => ({n2} : type) -> {r2}) {n1}");
+                out.push(format!("(ff : ({t1}) -> int) => (ww : ({t2})) => ff ww"));
+                out.push(format!("(ff : ({t2}) -> int) => (ww : ({t1})) => ff ww"));
+                out.push(format!("(ww : ({t1})) => (uu : ({t2})) => if true then ww else uu"));
+                out.push(format!("(ww : ({t2})) => (uu : ({t1}) = ww; 0)"));
+                // a polymorphic function checked against the computed type, then used at int and bool
+                let body = ["(aa : type) => (bb : type) => (zz : aa) => zz", "(aa : type) => (bb : type) => (zz : bb) => zz"][(i1 + i2) % 2];
+                out.push(format!("arrow : (type -> type) = (tt : type) => ({n2} : type) -> {r2}; pick : (({n1} : type) -> arrow {n1}) = {body}; pick"));
+            }
+        }
+    }
     out
 }
 
